@@ -27,7 +27,7 @@ type engine struct {
 var engineProtos = []string{"Http1", "bolt", "Http2"}
 
 func routeMatch(proto, key string) jmap {
-	if proto == "bolt" || proto == "boltv2" {
+	if proto != "Http1" && proto != "Http2" {
 		return jmap{"headers": []jmap{{"name": "service", "value": key}}}
 	}
 	return jmap{"prefix": "/" + key}
@@ -150,7 +150,7 @@ func (e *engine) newClient(proto, name string) client {
 // reqFor builds a request for a route key.
 func reqFor(proto, key, token, plan string) reqSpec {
 	r := reqSpec{Token: token, Plan: plan}
-	if proto == "bolt" || proto == "boltv2" {
+	if proto != "Http1" && proto != "Http2" {
 		r.Path = key
 	} else {
 		r.Path = "/" + key + "/x"
